@@ -28,7 +28,7 @@ def plan(tier, seed):
     a = cases.tok("lsn", s=1, fs=1, wall="slant", guards=1, tag="c16-lsn", ny_inner_divertor=3, ny_outer_divertor=5, ny_sol=6, xpoint_poloidal_spacing_length=0.06, psinorm_pf_lower=0.9, target_inner_lower_poloidal_spacing_length=0.25, target_outer_lower_poloidal_spacing_length=0.35)
     a["opts"]["psinorm_pf"] = 0.85
     pair(a, cases.mirror_of(a), "mirror", "mirror lsn<->usn")
-    b = cases.tok("ldn", s=-1, fs=1, wall="slant2", guards=2, tag="c16-ldn", ny_inner_lower_divertor=3, ny_outer_lower_divertor=4, ny_inner_upper_divertor=5, ny_outer_upper_divertor=3, ny_sol=6, psinorm_pf_lower=0.9, psinorm_pf_upper=0.87, target_inner_lower_poloidal_spacing_length=0.25, target_outer_lower_poloidal_spacing_length=0.35, target_inner_upper_poloidal_spacing_length=0.28, target_outer_upper_poloidal_spacing_length=0.32)
+    b = cases.tok("ldn", s=-1, fs=1, wall="slant2", guards=1, tag="c16-ldn", ny_inner_lower_divertor=3, ny_outer_lower_divertor=4, ny_inner_upper_divertor=5, ny_outer_upper_divertor=3, ny_sol=6, psinorm_pf_lower=0.9, psinorm_pf_upper=0.87, target_inner_lower_poloidal_spacing_length=0.25, target_outer_lower_poloidal_spacing_length=0.35, target_inner_upper_poloidal_spacing_length=0.28, target_outer_upper_poloidal_spacing_length=0.32)
     pair(b, cases.mirror_of(b), "mirror", "mirror ldn<->udn")
     c = cases.tok("cdn", s=1, fs=1, wall="box", shift=(0.003, 0.0), tag="c16-cdn-sym")
     pair(c, copy.deepcopy(c), "mirror", "symmetric cdn with itself", self_mirror=True)
